@@ -194,6 +194,7 @@ func runC11(c *Check) {
 		c.ruleSaveNotSkipped("R6", []string{"storage.(*TxRepository).save", "storage.(*TxRepository).Save"}, "storage", "TxRepository", pers,
 			map[string]bool{"storage.(*TxRepository).Load": true, "storage.NewTxRepository": true, "storage.newUnconfirmedTx": true, "storage.readUnconfirmedTx": true})
 	}
+	c.ruleRemoveOnlyWhenEmpty("R7")
 }
 
 // relax marks reader loops that run until the input is exhausted as matching an uncounted writer
